@@ -84,6 +84,9 @@ func cmdCheck(args []string) int {
 	if *tier == "thorough" {
 		eng.timeoutS = 60
 	}
+	if !*updateClaims {
+		eng.localsBase = loadLocals(*verif)
+	}
 	kfs := loadKnownFindings(filepath.Join(*verif, "known_findings.json"))
 
 	// select targets
@@ -181,6 +184,17 @@ func cmdCheck(args []string) int {
 		generated[o.Name] = o
 	}
 	if *updateClaims {
+		lb := loadLocals(*verif)
+		for _, k := range order {
+			if t := eng.targets[k]; t != nil && own[k] {
+				if l := localsOf(t); len(l) > 0 {
+					lb[k] = l
+				} else {
+					delete(lb, k)
+				}
+			}
+		}
+		saveLocals(*verif, lb)
 		var names []string
 		// only obligations of functions that carry the property themselves are claimed: a callee
 		// that merely drops out of the dependency closure after a harmless edit is not an alarm
@@ -322,6 +336,10 @@ func cmdCheck(args []string) int {
 	ev.Coverage["vacuity_checks"] = vacuity
 	ev.Coverage["samples"] = samples
 	ev.Coverage["known_finding_lines"] = kfLines
+	if len(eng.renamesUsed) > 0 {
+		// locals renamed since the contracts were written, bound by declaration position
+		ev.Coverage["locals_rebound"] = eng.renamesUsed
+	}
 	if id == "C14" {
 		ev.Coverage["explanation"] = "reads-frame obligations decided by a def-use walk over the typed AST of every command function that calls TryCache (no SMT): each flag/positional-derived value read after the TryCache call must occur in the encodePayload tuple list, be computed only from such values, or be the input/output path or the no-cache switch. One obligation per (command, value). Typestate half: ioDelegate.Close/Commit are verified by contract (SMT) — an uncommitted entry is removed — and per command a structural obligation shows no error return is reachable after Commit."
 	}
